@@ -14,8 +14,23 @@ from ..gen import spec as gs
 PROP = "C05"
 
 
+def shadow_doc(doc: dict) -> dict:
+    """The same operations over schemas of the SAME NAMES but different nature: every named object schema becomes a primitive alias
+    and the other way round.  Generated first, in the same process, into another directory: whatever the generator remembers per type
+    name (caches, memo tables, registries) must not leak into the generation of the real document."""
+    d = json.loads(json.dumps(doc))
+    for n, sc in d.get("components", {}).get("schemas", {}).items():
+        if sc.get("type") == "object" or "allOf" in sc or "properties" in sc:
+            d["components"]["schemas"][n] = {"type": "string"}
+        elif sc.get("type") in ("string", "integer", "number", "boolean") and "enum" not in sc:
+            d["components"]["schemas"][n] = {"type": "object", "properties": {"value": {"type": "string"}}}
+    return d
+
+
 def case_fn(case: dict, d):
     root = d / "proj"
+    if case.get("shadow_first"):
+        e2e.generate(shadow_doc(case["doc"]), d / "shadow", package="pkg.client")
     gen = e2e.generate(case["doc"], root, package="pkg.client")
     if not gen["ok"]:
         return {"gen_ok": False, "gen_error": gen["error"]}
@@ -83,7 +98,7 @@ def build_cases(ctx, stream: str, n: int) -> list[dict]:
                     calls.append({**base, "reply": rp["reply"], "expect_outcome": rp["expect"], "code": c, "primary": primary, "media_type": rp.get("media_type"),
                                   "n_2xx": len(codes2), "op": {"path": path, "method": m, "operationId": op["operationId"]},
                                   "features": resp_features(doc, sch, rp, op)})
-        cases.append({"id": f"{stream}-{i}", "stream": stream, "doc": doc, "calls": calls})
+        cases.append({"id": f"{stream}-{i}", "stream": stream, "doc": doc, "calls": calls, "shadow_first": i % 2 == 1})
     return cases
 
 
@@ -195,7 +210,7 @@ def evaluate(run: Run, known, case: dict, res: dict) -> None:
         if fid and known.listed(fid):
             known.hit(fid, {"op": call["op"], "code": call["code"], "mismatch": mism})
         elif len(run.violations) < 5:
-            run.violation("input", {"doc": case["doc"], "calls": [call]}, observed=oc, expected=call["expect_outcome"],
+            run.violation("input", {"doc": case["doc"], "calls": [call], "shadow_first": case.get("shadow_first", False)}, observed=oc, expected=call["expect_outcome"],
                           what=f"{call['op']['operationId']} status {call['code']}: " + "; ".join(mism)[:400])
 
 
